@@ -565,6 +565,17 @@ func (p *Program) ruleA7(c *Check) {
 			o.Observed = t.String()
 		}
 	}
+	// a Rect operand of a Poly/Line predicate is the equivalent five-point polygon
+	poly := p.Named("geometry", "Poly")
+	ext := p.Field("geometry", "Poly", "Exterior")
+	if poly != nil && ext != nil {
+		asPoly := tAddr(&Term{Kind: "lit", Type: poly, Keys: []string{"Exterior"}, Args: []*Term{tParam(0)}})
+		for _, r := range []struct{ recv, m, kern string }{{"Poly", "ContainsRect", "ContainsPoly"}, {"Poly", "IntersectsRect", "IntersectsPoly"}, {"Line", "ContainsRect", "ContainsPoly"}} {
+			m := p.Method("geometry", r.recv, r.m)
+			k := p.Method("geometry", r.recv, r.kern)
+			p.expectForward(c, "E1.A7b", m, r.recv+"."+r.m+"(rect) is "+r.kern+" of the five-point polygon of rect", tCall(k, tRecv(), asPoly))
+		}
+	}
 	for _, nm := range []struct {
 		m    string
 		want string
